@@ -193,24 +193,70 @@ def main(run):
     run.build_props()
     rng = run.rng
 
+    import array
+    import copy
+    import numpy
+
     classes = {}
 
     def fitcls(w):
-        key = tuple(w)
+        key = tuple((type(x).__name__, x) for x in w)
         if key not in classes:
-            classes[key] = type("F%d" % len(classes), (base.Fitness,), {"weights": tuple(float(x) for x in w)})
+            classes[key] = type("F%d" % len(classes), (base.Fitness,), {"weights": tuple(w)})
         return classes[key]
 
     class Ind(list):
         pass
 
-    def build(w, vals):
-        C = fitcls(w)
+    class IndArr(numpy.ndarray):
+        pass
+
+    class IndTyped(array.array):
+        pass
+
+    class IndObj(object):
+        def __init__(self, g):
+            self.genes = [g]
+
+    def mkind_py(j, container):
+        if container == "ndarray":
+            return numpy.array([j, j + 1]).view(IndArr)
+        if container == "array":
+            return IndTyped("d", [float(j)])
+        if container == "object":
+            return IndObj(j)
+        return Ind([j])
+
+    def genes_of(ind):
+        if isinstance(ind, numpy.ndarray):
+            return ind.tolist()
+        if isinstance(ind, IndObj):
+            return list(ind.genes)
+        return list(ind)
+
+    def typed_weights(w, vtype):
+        if vtype == "int":
+            return [int(x) if float(x) == int(x) else float(x) for x in w]
+        return [float(x) for x in w]
+
+    def typed_values(v, vtype):
+        if vtype == "np64":
+            return tuple(numpy.float64(x) for x in v)
+        if vtype == "f32":
+            return tuple(numpy.float32(x) for x in v)
+        if vtype == "int":
+            return tuple(x if isinstance(x, int) else (int(x) if float(x) == int(x) else float(x)) for x in v)
+        return tuple(float(x) for x in v)
+
+    def build(w, vals, vtype="float", container="list"):
+        """vtype: how the fitness values are handed to DEAP (python floats / numpy.float64 scalars / python ints with
+        integer weights / numpy.float32 scalars); container: the individual's type (selection must not care)."""
+        C = fitcls(typed_weights(w, vtype))
         pop = []
         for j, v in enumerate(vals):
-            ind = Ind([j])
+            ind = mkind_py(j, container)
             ind.fitness = C()
-            ind.fitness.values = tuple(float(x) for x in v)
+            ind.fitness.values = typed_values(v, vtype)
             pop.append(ind)
         return pop
 
@@ -226,43 +272,82 @@ def main(run):
     terms, cases = [], []
     all_k_nd_later = []
     stats = {"sel_calls": 0, "exact_q": 0, "cut_inside": 0, "formula_checked_fronts": 0, "crowd_calls": 0,
-             "log_calls": 0, "k_gt_n": 0, "with_duplicates": 0}
+             "log_calls": 0, "k_gt_n": 0, "with_duplicates": 0, "with_stale_crowding_dist": 0, "oracle_only_calls": 0,
+             "routes": {}, "vtypes": {}, "containers": {}}
 
     def add(term, case, nontrivial=True):
         terms.append(term)
         cases.append(case)
 
+    toolboxes = {}
+
+    def call_route(route, pop, k, nd):
+        if route == "keyword":
+            return tools.selNSGA2(pop, k, nd=nd)
+        if route == "emo":
+            return emo.selNSGA2(pop, k, nd)
+        if route == "toolbox":
+            if nd not in toolboxes:
+                tb = base.Toolbox()
+                tb.register("select", tools.selNSGA2, nd=nd)
+                toolboxes[nd] = tb
+            return toolboxes[nd].select(pop, k)
+        if route == "default" and nd == "standard":
+            return tools.selNSGA2(pop, k)
+        return tools.selNSGA2(pop, k, nd)
+
     # ------------------------------------------------------------------------
-    def sel_case(w, vals, k, nd):
-        pop = build(w, vals)
+    def sel_call(pop, case, k, nd, route="positional", tol=None, emit=True):
+        """One call of selNSGA2 on existing individual objects (which may carry a crowding_dist from earlier calls).
+        The oracle judges this call on its own: inputs = the objects' current fitnesses + their stale attributes."""
         n = len(pop)
         pos = {id(ind): j for j, ind in enumerate(pop)}
+        pre_cd = [getattr(ind.fitness, "crowding_dist", None) for ind in pop]
+        pre_ids = [id(ind) for ind in pop]
+        pre_vals = [tuple(ind.fitness.values) for ind in pop]
+        pre_types = [tuple(type(x) for x in ind.fitness.values) for ind in pop]
+        pre_wvals = [tuple(ind.fitness.wvalues) for ind in pop]
+        pre_genes = [genes_of(ind) for ind in pop]
         rec = []
         orig = (emo.sortNondominated, emo.sortLogNondominated)
 
-        def wrap(f):
+        def wrap(f, name):
             def g(*a, **kw):
                 r = f(*a, **kw)
-                rec.append([list(fr) for fr in r])
+                rec.append((name, [list(fr) for fr in r]))
                 return r
             return g
-        emo.sortNondominated, emo.sortLogNondominated = wrap(orig[0]), wrap(orig[1])
+        emo.sortNondominated, emo.sortLogNondominated = wrap(orig[0], "standard"), wrap(orig[1], "log")
         try:
-            status, res = guarded(tools.selNSGA2, pop, k, nd)
+            status, res = guarded(call_route, route, pop, k, nd)
         finally:
             emo.sortNondominated, emo.sortLogNondominated = orig
-        case = {"kind": "sel", "weights": list(w), "values": [list(v) for v in vals], "k": k, "nd": nd}
+        case = dict(case, kind="sel", k=k, nd=nd, route=route,
+                    pre_crowding_dist=[repr(x) for x in pre_cd] if any(x is not None for x in pre_cd) else None)
         stats["sel_calls"] += 1
         stats["log_calls"] += nd == "log"
         stats["k_gt_n"] += k > n
+        stats["routes"][route] = stats["routes"].get(route, 0) + 1
+        stats["with_stale_crowding_dist"] += any(x is not None for x in pre_cd)
         if status != "ok":
             run.note_case(case, True)
             run.oracle_violation("selNSGA2 raised %s" % res, case)
-            return
-        if len(rec) != 1:
+            return None
+        if len(rec) != 1 or rec[0][0] != nd:
             run.note_case(case, True)
-            run.oracle_violation("selNSGA2 did not call the selected sorting back-end exactly once", case, observed=len(rec))
-            return
+            run.oracle_violation("selNSGA2 did not call the selected sorting back-end exactly once", case,
+                                 observed=[r[0] for r in rec])
+            return None
+        # ---- the arguments are left alone; the result is a new list of references ----
+        if [id(ind) for ind in pop] != pre_ids:
+            run.oracle_violation("selNSGA2 modified the list of individuals it was given", case)
+            return None
+        if res is pop or not isinstance(res, list):
+            run.oracle_violation("selNSGA2 did not return a new list", case)
+        if ([tuple(ind.fitness.values) for ind in pop] != pre_vals or [tuple(ind.fitness.wvalues) for ind in pop] != pre_wvals
+                or [tuple(type(x) for x in ind.fitness.values) for ind in pop] != pre_types
+                or [genes_of(ind) for ind in pop] != pre_genes):
+            run.oracle_violation("selNSGA2 changed an individual's genes or fitness values", case)
         # ---- observations ----
         sel_uid, unknown = [], 0
         for x in res:
@@ -271,11 +356,13 @@ def main(run):
             else:
                 sel_uid.append(n + unknown)
                 unknown += 1
-        fronts_uid = [[pos.get(id(x), n) for x in fr] for fr in rec[0]]
-        cd = [getattr(ind.fitness, "crowding_dist", None) for ind in pop]
-        obs_vals = [tuple(ind.fitness.values) for ind in pop]
-        wvs = [tuple(ind.fitness.wvalues) for ind in pop]
+        fronts_uid = [[pos.get(id(x), n) for x in fr] for fr in rec[0][1]]
+        cd_raw = [getattr(ind.fitness, "crowding_dist", None) for ind in pop]
+        cd = [None if x is None else float(x) for x in cd_raw]
+        obs_vals = [tuple(float(x) for x in ind.fitness.values) for ind in pop]     # exact conversions
+        wvs = pre_wvals
         case["observed"] = {"selected": sel_uid, "fronts": fronts_uid, "crowding_dist": [repr(x) for x in cd]}
+        ftol = Fraction(1, 10 ** 12) if tol is None else Fraction(tol)
         # ---- oracle: the property statement on the implementation ----
         depth = peel_depths(wvs)
         selset = set(sel_uid)
@@ -313,7 +400,7 @@ def main(run):
             exp = formula_crowding(fv)
             for j, e in zip(members, exp):
                 o = cd[j]
-                ok = (o is not None) and ((o == INF) if e == INF else (math.isfinite(o) and abs(Fraction(o) - e) <= Fraction(1, 10 ** 12) * max(1, e)))
+                ok = (o is not None) and ((o == INF) if e == INF else (math.isfinite(o) and abs(Fraction(o) - e) <= ftol * max(1, e)))
                 if not ok:
                     run.oracle_violation("crowding distance differs from the formula (inf at extremes, else sum of neighbour gaps / (nobj*range))",
                                          case, observed={"uid": j, "got": repr(o), "expected": str(e)})
@@ -337,16 +424,35 @@ def main(run):
         stats["cut_inside"] += cut_inside
         stats["with_duplicates"] += len(set(wvs)) < n
         run.note_case(case, cut_inside or finite_cd, sample=case if stats["sel_calls"] % 501 == 7 else None)
+        if not emit:
+            stats["oracle_only_calls"] += 1
+            return res
         # ---- correspondence terms ----
         img = rank_image(pop)
         fu = clist([cnatl(f) for f in fronts_uid])
+        stale = any(x is not None for x in pre_cd)
         popf = clist(["(%s, %s)" % (czl(img[j]), cfl(obs_vals[j])) for j in range(n)])
-        add("CSelF %s %s %s %s %s %s" % (cbool(nd == "standard"), cnat(k), popf, fu, cnatl(sel_uid),
-                                         clist([copt(x, cfloat) for x in cd])), case)
+        add("CSelF %s %s %s %s %s %s %s" % (cbool(nd == "standard"), cnat(k), popf, fu, cnatl(sel_uid),
+                                            clist([copt(x, cfloat) for x in pre_cd]) if stale else "[]",
+                                            clist([copt(x, cfloat) for x in cd])), case)
         exact = all(float_exact_ok([obs_vals[j] for j in f if j < n]) for f in fronts_uid)
         stats["exact_q"] += exact
         popq = clist(["(%s, %s)" % (czl(img[j]), cql(obs_vals[j])) for j in range(n)])
-        add("CSelQ %s %s %s %s %s %s" % (cbool(exact), cnat(k), popq, fu, cnatl(sel_uid), clist([copt(x, cqinf) for x in cd])), case)
+        add("CSelQ %s %s %s %s %s %s %s" % (cbool(exact), cnat(k), popq, fu, cnatl(sel_uid),
+                                            clist([copt(None if x is None else float(x), cqinf) for x in pre_cd]) if stale else "[]",
+                                            clist([copt(x, cqinf) for x in cd])), case)
+        return res
+
+    ROUTES = ["positional", "positional", "keyword", "emo", "toolbox", "default"]
+
+    def sel_case(w, vals, k, nd, vtype="float", container="list", route=None):
+        if route is None:
+            route = rng.choice(ROUTES)
+        stats["vtypes"][vtype] = stats["vtypes"].get(vtype, 0) + 1
+        stats["containers"][container] = stats["containers"].get(container, 0) + 1
+        pop = build(w, vals, vtype, container)
+        case = {"weights": list(w), "values": [list(v) for v in vals], "value_type": vtype, "container": container}
+        return sel_call(pop, case, k, nd, route, tol=(1e-5 if vtype == "f32" else None), emit=(vtype != "f32"))
 
     # ------------------------------------------------------------------------
     def crowd_case(w, vals):
@@ -407,9 +513,10 @@ def main(run):
         us = sorted(rng.sample(range(0, 1001), n))
         return [off + spread * (u / 1000.0) for u in us]
 
-    def offset_front(n, nobj):
+    def offset_front(n, nobj, colgen=None):
+        colgen = colgen or offset_column
         w = [rng.choice([1, -1]) * rng.choice([1, 1, 2, 0.5]) for _ in range(nobj)]
-        cols = [offset_column(n) for _ in range(nobj)]
+        cols = [colgen(n) for _ in range(nobj)]
         # weighted objective 0 ascending, weighted objective 1 descending: all mutually non-dominated
         if w[0] < 0:
             cols[0].reverse()
@@ -523,9 +630,79 @@ def main(run):
         vals = rand_values(n, nobj)
         w = rand_weights(nobj) if rng.random() < 0.7 else [rng.choice([1, -1]) for _ in range(nobj)]
         ks = {rng.randint(0, n + 2), rng.randint(0, n + 2), rng.choice([0, 1, n // 2, n - 1, n, n + 1, n + 2])}
+        # how the values reach DEAP and what kind of object an individual is must not matter
+        r = rng.random()
+        integral = all(float(x) == int(x) for v in vals for x in v)
+        vtype = "float" if r < 0.72 else "np64" if r < 0.86 else ("int" if integral else "np64") if r < 0.96 else "f32"
+        container = rng.choice(["list", "list", "list", "ndarray", "array", "object"])
         for k in sorted(x for x in ks if x >= 0):
             for nd in ("standard", "log"):
-                sel_case(w, vals, k, nd)
+                sel_case(w, vals, k, nd, vtype, container)
+
+    # ------------------------------------------------------------------------
+    # value domains: signed zeros and subnormals, near-ties a few ulps apart, integers beyond 2**53
+    def ulp_column(n):
+        b = rng.choice([1.0, 1000.0, 1e-3, -7.5, 2.0 ** 40, -1e9])
+        return [b + m * math.ulp(b) for m in sorted(rng.sample(range(0, 48), n))]
+
+    for _ in range(run.scale(8, 80)):
+        n = rng.randint(4, 8)
+        w, vals = offset_front(n, rng.choice([2, 3]), ulp_column)
+        if distinct_per_objective([tuple(v) for v in vals]):
+            all_k_nd(w, vals)
+    for _ in range(run.scale(8, 80)):
+        n = rng.randint(1, 8)
+        nobj = rng.choice([2, 3])
+        vals = [[rng.choice([0.0, -0.0, 0.0, 1.0, -1.0, 5e-324, -5e-324, 2.5]) for _ in range(nobj)] for _ in range(n)]
+        all_k_nd([rng.choice([1, -1]) for _ in range(nobj)], vals)
+    for _ in range(run.scale(6, 60)):
+        n = rng.randint(2, 7)
+        nobj = rng.choice([2, 3])
+        vals = [[2 ** 53 + rng.randint(0, 6) for _ in range(nobj)] for _ in range(n)]
+        w = [rng.choice([1, -1]) for _ in range(nobj)]
+        for k in range(0, n + 3):
+            for nd in ("standard", "log"):
+                sel_case(w, vals, k, nd, "int")
+
+    # ------------------------------------------------------------------------
+    # state carried by the objects between calls: generations of an NSGA-II loop re-using the same individuals
+    # (survivors keep the crowding_dist written by earlier calls, clones inherit it, values are re-assigned with
+    # and without `del`), the same list passed to successive calls with another k / the other back-end, two
+    # populations sharing individuals.  Every call is judged on its own.
+    def current_case(pop, w, t):
+        return {"weights": list(w), "values": [[float(x) for x in ind.fitness.values] for ind in pop], "sequence_step": t}
+
+    for _ in range(run.scale(40, 400)):
+        nobj = rng.choice([2, 2, 3])
+        w = rand_weights(nobj) if rng.random() < 0.5 else [rng.choice([1, -1]) for _ in range(nobj)]
+        pop = build(w, rand_values(rng.randint(3, 10), nobj))
+        for t in range(rng.randint(2, 4)):
+            n = len(pop)
+            k = rng.choice([n // 2, n // 2, rng.randint(0, n + 2), n, 1])
+            nd = rng.choice(["standard", "log"])
+            res = sel_call(pop, current_case(pop, w, t), k, nd, rng.choice(ROUTES))
+            if res is None:
+                break
+            if rng.random() < 0.6:      # the very same list again: other k, other back-end
+                sel_call(pop, current_case(pop, w, t), rng.randint(0, n + 2), "log" if nd == "standard" else "standard",
+                         rng.choice(ROUTES))
+            survivors = list(res) if len(res) >= 2 else list(pop[:2])
+            offspring = []
+            rows = rand_values(len(survivors) + 3, nobj)
+            for row in rows[:rng.randint(1, len(rows))]:
+                c = copy.deepcopy(rng.choice(survivors))
+                r = rng.random()
+                if r < 0.5:
+                    del c.fitness.values
+                    c.fitness.values = tuple(float(x) for x in row)
+                elif r < 0.75:
+                    c.fitness.values = tuple(float(x) for x in row)     # re-assigned without del
+                offspring.append(c)                                      # else: an equal-fitness clone
+            pop = survivors + offspring + build(w, rand_values(rng.randint(1, 3), nobj))
+            if rng.random() < 0.5:
+                rng.shuffle(pop)
+            if len(pop) > 30:
+                pop = pop[:30]
 
     # ------------------------------------------------------------------------
     # direct assignCrowdingDist calls (any list, not only a front)
